@@ -28,7 +28,8 @@ SPEC = {
                    "PyMatterSim.static.boo:boo_3d.ql_Ql", "PyMatterSim.dynamic.dynamics:Dynamics.relaxation",
                    "PyMatterSim.utils.coarse_graining:gaussian_blurring", "PyMatterSim.static.vector:vector_decomposition_sq"],
     "floors_thorough": {"purity_repo_tests": 200},
-    "floors": {"purity": 20000, "repeat": 300, "files": 400, "instance_reuse": 30, "instance_history": 30, "fresh_process_replay": 40},
+    "floors": {"purity": 20000, "repeat": 300, "files": 400, "instance_reuse": 30, "instance_history": 30, "fresh_process_replay": 40,
+               "updated_in_place": 100},
     "insitu": (),
     "rule": ("random programs (12-20 steps, a third of them repeats of an earlier step) over ~60 public entry points of static / "
              "dynamic / neighbors / utils on one shared pool: 2-D and 3-D wrapped + unwrapped trajectories (3-4 frames, 16-30 "
@@ -965,6 +966,97 @@ def tripwire(S, step, outdir):
     return site
 
 
+def same_layout_copy(a):
+    """a new array with the same dtype, shape, STRIDES and values on its own buffer (so that summation order, and therefore every bit
+    of a result, is the same as for the original)"""
+    if a.flags.c_contiguous or a.size == 0 or any(st <= 0 for st in a.strides):
+        return a.copy()
+    extent = sum((n - 1) * st for n, st in zip(a.shape, a.strides)) + a.itemsize
+    buf = np.zeros(extent, dtype=np.uint8)
+    b = np.ndarray(a.shape, dtype=a.dtype, buffer=buf, strides=a.strides)
+    b[...] = a
+    return b
+
+
+def clone(obj, memo=None, depth=0):
+    """deep copy of pool objects with new identities everywhere and layout-preserving array copies"""
+    import dataclasses
+    memo = {} if memo is None else memo
+    if id(obj) in memo:
+        return memo[id(obj)]
+    if isinstance(obj, np.ndarray):
+        r = same_layout_copy(obj)
+        if not obj.flags.writeable:
+            r.setflags(write=False)
+    elif isinstance(obj, dict):
+        r = {k: clone(v, memo, depth + 1) for k, v in obj.items()}
+    elif isinstance(obj, list):
+        r = [clone(v, memo, depth + 1) for v in obj]
+    elif isinstance(obj, tuple):
+        r = tuple(clone(v, memo, depth + 1) for v in obj)
+    elif hasattr(obj, "__dataclass_fields__"):
+        r = type(obj)(**{f.name: clone(getattr(obj, f.name), memo, depth + 1) for f in dataclasses.fields(obj)})
+    else:
+        r = obj
+    memo[id(obj)] = r
+    return r
+
+
+def swap_frames_in_place(S):
+    """a legitimate in-place update of the caller's own objects (an involution, so applying it twice restores the pool): the first two
+    frames of every trajectory exchange their coordinates, and every per-frame field exchanges its first two time slices.  Timesteps,
+    boxes, particle numbers, shapes and object identities all stay what they were -- only the values change."""
+    n = 0
+    for k, v in S.pool.items():
+        if hasattr(v, "snapshots") and len(v.snapshots) >= 2:
+            a, b = v.snapshots[0].positions, v.snapshots[1].positions
+            if a.shape == b.shape and a.flags.writeable and b.flags.writeable:
+                t = a.copy()
+                a[...] = b
+                b[...] = t
+                n += 1
+        elif isinstance(v, np.ndarray) and v.ndim >= 2 and v.shape[0] == S.T and v.flags.writeable and re.match(r"(scal|cplx|bool|vec|ten)\d", k):
+            t = v[0].copy()
+            v[0] = v[1]
+            v[1] = t
+            n += 1
+    return n
+
+
+def updated_in_place_monitor(ctx, S, step, sd, k):
+    """after the caller updated its arrays in place, a call on the SAME objects must return what a call on fresh objects holding the same
+    values returns (no result may be remembered under an object's identity, timestep, shape or box)"""
+    import copy
+    if "_rec" not in step:
+        return
+    swap_frames_in_place(S)
+    try:
+        o1, o2 = os.path.join(sd, f"o{k}u1"), os.path.join(sd, f"o{k}u2")
+        os.makedirs(o1), os.makedirs(o2)
+        try:
+            r_same = canon(step["thunk"](o1)[0])
+        except Exception as e:  # noqa: BLE001
+            r_same = ("raised", type(e).__name__)
+        S2 = copy.copy(S)
+        S2.pool = clone(S.pool)
+        rng2 = np.random.default_rng(0)
+        rng2.bit_generator.state = step["_rng_state"]
+        try:
+            step2 = step["_rec"](S2, rng2)
+            r_fresh = canon(step2["thunk"](o2)[0])
+        except Exception as e:  # noqa: BLE001
+            r_fresh = ("raised", type(e).__name__)
+        if isinstance(r_fresh, tuple) and r_fresh[:1] == ("raised",):
+            ctx.skip("updated_in_place")        # the swapped configuration is outside this entry point's domain (e.g. empty mobility subset)
+            return
+        ctx.check("updated_in_place", same(r_same, r_fresh), f"{step['name']}/stale_after_in_place_update",
+                  lambda: f"{step['name']} {step['par']}: after the caller's arrays were updated in place (frames 0 and 1 exchanged) the call on the same "
+                          f"objects differs from the call on fresh objects with the same values: {describe_diff(r_fresh, r_same)}",
+                  {"step": step["name"], "par": step["par"]})
+    finally:
+        swap_frames_in_place(S)
+
+
 def plan(S, rng, R, notes=None):
     """the program as data: [("new", step) | ("repeat", index of an earlier entry)]"""
     nsteps = int(rng.integers(12, 21))
@@ -975,8 +1067,10 @@ def plan(S, rng, R, notes=None):
             prog.append(("repeat", news[int(rng.integers(0, len(news)))]))
             continue
         rec = R[order[k % len(order)]] if rng.random() < 0.7 else R[int(rng.integers(0, len(R)))]
+        st = rng.bit_generator.state
         try:
             step = rec(S, rng)
+            step["_rec"], step["_rng_state"] = rec, st
         except Exception as e:  # noqa: BLE001  building arguments runs repository code too (neighbour files)
             if notes is not None:
                 notes.append(f"recipe {rec.__name__} could not be prepared: {type(e).__name__}: {e}")
@@ -1018,6 +1112,8 @@ def program(ctx, rng, wd, R, pno, fresh_replay=False):
                  sample={"step": step["name"], "parameters": step["par"], "program": pno, "position": k})
         if ok:
             results[k] = res
+        if ok and np.random.default_rng(key + [k, 4242]).random() < 0.3:
+            updated_in_place_monitor(ctx, S, step, sd, k)
         # instance reuse: the same method twice on ONE instance must agree with a fresh instance; and after a history of OTHER
         # method calls on one instance the method must still return what a fresh instance returns
         if ok and step["reuse"]:
